@@ -91,6 +91,22 @@ class Purity(object):
                 return False
         return True
 
+    def param_is_text(self, name, at_node):
+        """a parameter that is formatted after the open is text only when an `isinstance(<parameter>, str)` test that came out true
+        dominates the use and the parameter was not re-bound: `"%s" % p` raises for a tuple p, and runs p.__str__ for anything else"""
+        if name not in self.func.params[1:] or at_node is None:
+            return False
+        if any(d.kind != "entry" for d in reaching_defs(self.g, at_node, name)):
+            return False
+        from ..kinds import _isinstance_atoms
+        for test, pol, _ in self.g.dominating_conditions(at_node):
+            if pol not in ("true", "false"):
+                continue
+            for sub, spol in _isinstance_atoms(test, pol == "true"):
+                if spol and unparse(sub.args[0]) == name and unparse(sub.args[1]) in ("str", "(str,)"):
+                    return True
+        return False
+
     def text_local(self, name, at_node, depth=0):
         """all definitions of `name` reaching at_node produce text."""
         if depth > 4:
@@ -193,7 +209,7 @@ class Purity(object):
                     return False
                 if isinstance(a, ast.Name) and not (self.text_local(a.id, at_node)
                                                     or _const_str(self.prog, self.func, a) is not None
-                                                    or a.id in self.func.params[1:]):
+                                                    or self.param_is_text(a.id, at_node)):
                     self.why = "%%s of %s, which is not known to be text" % a.id
                     return False
             return True
@@ -237,7 +253,7 @@ class Purity(object):
                                 if not self.pure(a, at_node):
                                     ok = False
                                 elif isinstance(a, ast.Name) and not (self.text_local(a.id, at_node) or _const_str(self.prog, self.func, a) is not None
-                                                                      or a.id in self.func.params[1:]):
+                                                                      or self.param_is_text(a.id, at_node)):
                                     self.why = "{} of %s, which is not known to be text" % a.id
                                     ok = False
                             if ok:
@@ -257,7 +273,7 @@ class Purity(object):
                 if not self.pure(a, at_node):
                     return False
                 if isinstance(a, ast.Name) and not (self.text_local(a.id, at_node) or _const_str(self.prog, self.func, a) is not None
-                                                    or a.id in self.func.params[1:]):
+                                                    or self.param_is_text(a.id, at_node)):
                     self.why = "{%s} in an f-string, which is not known to be text" % a.id
                     return False
             return True
